@@ -4,6 +4,7 @@
 #define VERIF_MAIN_TU
 #include <cmath>
 #include <limits>
+#include <memory>
 #include <random>
 #include <set>
 #include <stdexcept>
@@ -79,8 +80,11 @@ template <class I>
 std::string
 ParamStr(const char *cls, I128 mn, I128 mx, double alpha)
 {
-  return Fmt("%s<%s>(min=%lld,max=%lld,alpha=%.17g)", cls, TypeName<I>(), static_cast<long long>(mn),
-             static_cast<long long>(mx), alpha);
+  auto str = [](I128 v) {
+    if (v >= 0 && v > static_cast<I128>(std::numeric_limits<long long>::max())) return Fmt("%llu", static_cast<unsigned long long>(v));
+    return Fmt("%lld", static_cast<long long>(v));
+  };
+  return Fmt("%s<%s>(min=%s,max=%s,alpha=%.17g)", cls, TypeName<I>(), str(mn).c_str(), str(mx).c_str(), alpha);
 }
 
 /*##############################################################################
@@ -94,7 +98,7 @@ C06One(Ctx &c, const char *cls, D &d, I mn, I mx, double alpha, const std::vecto
   const I128 n = static_cast<I128>(mx) - static_cast<I128>(mn) + 1;
   const auto ps = ParamStr<I>(cls, mn, mx, alpha);
   uint64_t below = 0, equal = 0, above = 0, draws = 0;
-  auto one = [&](uint64_t word, int64_t around_k) {
+  auto one = [&](uint64_t word, uint64_t around_k, bool has_k = true) {
     ScriptEngine g;
     g.word = word;
     ScriptEngine g2 = g;
@@ -129,7 +133,7 @@ C06One(Ctx &c, const char *cls, D &d, I mn, I mx, double alpha, const std::vecto
                   "GetCDF(bin)=%.17g",
                   ps.c_str(), word, u, static_cast<long long>(v), static_cast<long long>(idx), lo, hi));
     }
-    if (around_k >= 0) {
+    if (has_k) {
       const double ck = d.GetCDF(static_cast<I>(around_k));
       if (u < ck) {
         ++below;
@@ -151,13 +155,15 @@ C06One(Ctx &c, const char *cls, D &d, I mn, I mx, double alpha, const std::vecto
         if (!dense_words && j != 0 && j != 11) continue;
         const I128 ww = static_cast<I128>(w0) + static_cast<I128>(dlt) * (static_cast<I128>(1) << j);
         if (ww < 0 || ww > static_cast<I128>(~0ULL)) continue;
-        one(static_cast<uint64_t>(ww), static_cast<int64_t>(k));
+        one(static_cast<uint64_t>(ww), k);
       }
     }
   }
-  one(0, -1);
-  one(~0ULL, -1);
-  one(1ULL << 63, -1);
+  one(0, 0, false);
+  one(~0ULL, 0, false);
+  one(1ULL << 63, 0, false);
+  one(3ULL << 62, 0, false);
+  one(1ULL << 62, 0, false);
   // a pseudo-random stream
   std::mt19937_64 mt{c.seed ^ static_cast<uint64_t>(n)};
   for (int i = 0; i < 64; ++i) {
@@ -185,7 +191,7 @@ C06One(Ctx &c, const char *cls, D &d, I mn, I mx, double alpha, const std::vecto
   c.res.Add("draws_u_equal_breakpoint", equal);
   c.res.Add("draws_u_above_breakpoint", above);
   c.res.Add("parameter_sets", 1);
-  const char *nclass = n == 1 ? "n=1" : (n <= 99 ? "n<100" : (n == 100 ? "n=100" : (n == 101 ? "n=101" : (n < 1000 ? "n<1000" : (n < 1000000 ? "n<1e6" : "n>=1e6")))));
+  const char *nclass = n == 1 ? "n=1" : (n <= 99 ? "n<100" : (n == 100 ? "n=100" : (n == 101 ? "n=101" : (n < 1000 ? "n<1000" : (n < 1000000 ? "n<1e6" : (n <= (static_cast<I128>(1) << 31) ? "n>=1e6" : (n <= (static_cast<I128>(1) << 62) ? "n>2^31" : "n>2^62")))))));
   const char *aclass = alpha == 0 ? "a=0" : (alpha < 1 ? "a<1" : (alpha == 1 ? "a=1" : (alpha <= 3 ? "a<=3" : "a>3")));
   const char *mclass = mn == std::numeric_limits<I>::min() ? "min=lowest" : (mx == std::numeric_limits<I>::max() ? "max=highest" : (mn < 0 ? "min<0" : "min>=0"));
   c.sigs.insert(Fmt("c06:%s<%s>:%s:%s:%s", cls, TypeName<I>(), nclass, aclass, mclass));
@@ -240,6 +246,8 @@ C06Type(Ctx &c)
     c.res.Add("draws", 2010);
     c.sigs.insert(Fmt("c06:default<%s>", TypeName<I>()));
   }
+  ZipfDistribution<I> zvictim;
+  ApproxZipfDistribution<I> avictim;
   for (auto n : ns) {
     for (auto alpha : alphas) {
       // placements of [min, max]
@@ -259,25 +267,49 @@ C06Type(Ctx &c)
       try {
         ZipfDistribution<I> d{mn, mx, alpha};
         C06One<I>(c, "Zipf", d, mn, mx, alpha, ks, n <= 300);
+        if (r.Chance(1, 3)) {
+          // the same parameters arrive by copy assignment in an object that had other parameters before
+          zvictim = d;
+          C06One<I>(c, "Zipf(copy-assigned)", zvictim, mn, mx, alpha, ks, false);
+        }
       } catch (const std::exception &e) {
         Violate("C06", "Zipf:constructor-threw-on-admissible-input", ParamStr<I>("Zipf", mn128, mx128, alpha) + " " + e.what());
       }
       try {
         ApproxZipfDistribution<I> d{mn, mx, alpha};
         C06One<I>(c, "ApproxZipf", d, mn, mx, alpha, ks, n <= 300);
+        if (r.Chance(1, 3)) {
+          avictim = d;
+          C06One<I>(c, "ApproxZipf(copy-assigned)", avictim, mn, mx, alpha, ks, false);
+        }
       } catch (const std::exception &e) {
         Violate("C06", "ApproxZipf:constructor-threw-on-admissible-input", ParamStr<I>("ApproxZipf", mn128, mx128, alpha) + " " + e.what());
       }
     }
   }
   // large approximate distributions
+  // (bin counts up to the largest admissible one: n <= type max - 200; positions beyond 2^31, 2^32, 2^62 and 2^63)
   std::vector<uint64_t> big = {1000000, 10000019, 100000000};
   if (sizeof(I) == 8) {
     big.push_back(1000000000ULL);
     if (c.scale >= 8) big.push_back(10000000000ULL);
+    for (uint64_t n : std::initializer_list<uint64_t>{(1ULL << 32) + 7, (1ULL << 40) + 3, (1ULL << 53) + 1, (1ULL << 62) - 5, (1ULL << 62) + 5,
+                                                      static_cast<uint64_t>(std::numeric_limits<int64_t>::max()) - 200}) {
+      big.push_back(n);
+    }
+    if (!std::is_signed_v<I>) {
+      big.push_back((1ULL << 63) + 11);
+      big.push_back(static_cast<uint64_t>(Lim::max()) - 200);
+    }
   } else {
     big.push_back(static_cast<uint64_t>(Lim::max() / 2));
     big.push_back(static_cast<uint64_t>(std::numeric_limits<int32_t>::max()) - 200);
+    big.push_back((1ULL << 30) + 3);
+    if (!std::is_signed_v<I>) {
+      big.push_back((1ULL << 31) + 11);
+      big.push_back(3000000000ULL);
+      big.push_back(static_cast<uint64_t>(Lim::max()) - 200);
+    }
   }
   for (auto n : big) {
     for (double alpha : {0.0, 0.99, 1.0, 2.5}) {
@@ -444,12 +476,17 @@ C18Type(Ctx &c, bool primary)
   std::vector<uint64_t> ns;
   for (uint64_t n = 1; n <= 130; ++n) ns.push_back(n);
   for (uint64_t n : {200ULL, 255ULL, 256ULL, 999ULL, 1000ULL, 1001ULL, 4096ULL, 10000ULL, 100000ULL}) ns.push_back(n);
-  if (primary) ns.push_back(1000000);
+  if (primary) {
+    ns.push_back(1000000);
+    ns.push_back((1ULL << 20) + 1);  // "several million" starts here: one and two more 2^20 blocks
+    ns.push_back(2100000);
+  }
   if (primary && c.scale >= 4) ns.push_back(4000000);
   std::vector<double> alphas = {0, 0.25, 0.5, 0.99, 1, 1.000001, 1.5, 2, 3, 5, 10, 50, 200, 1100};
   for (auto n : ns) {
     for (auto a : alphas) {
       if (n > 20000 && !(a == 0 || a == 1 || a == 3 || a == 50)) continue;
+      if (n > 1000000 && n < 4000000 && !(a == 0 || a == 1)) continue;
       if (!primary && n > 300) continue;
       if (!c.Mine()) continue;
       C18Exact<I>(c, n, a);
@@ -486,6 +523,18 @@ C18Type(Ctx &c, bool primary)
       C18Approx<I>(c, n, a, n <= 100);
     }
   }
+  // construction-order sweeps: one skew, changing bin counts back to back in one thread (what was constructed before
+  // must not matter); one sweep is one case so that it stays in one process
+  for (double a : {0.0, 0.5, 1.0, 1.25, 2.0, 3.0}) {
+    if (!c.Mine()) continue;
+    for (uint64_t n : {1000ULL, 49ULL, 10ULL, 1000ULL, 100ULL, 101ULL, 5000ULL, 3ULL, 99ULL, 20000ULL, 70ULL, 1ULL, 1100ULL, 100ULL}) {
+      C18Approx<I>(c, n, a, true);
+      C18Exact<I>(c, n, a);
+    }
+    for (uint64_t n : {3000ULL, 20ULL, 2999ULL, 3001ULL, 64ULL}) C18Exact<I>(c, n, a);
+    c.res.Add("construction_order_sweeps", 1);
+    c.sigs.insert(Fmt("c18:order-sweep<%s>", TypeName<I>()));
+  }
   // last bin == 1 for large n
   for (uint64_t n : {1000000ULL, 16777217ULL, 1000000007ULL}) {
     if (n > static_cast<uint64_t>(std::numeric_limits<I>::max()) - 300) continue;
@@ -514,6 +563,17 @@ C19One(Ctx &c, const char *cls, Rng &r)
   const uint64_t seed = r.Next();
   const size_t len = 200 + r.Below(2000);
   D<I> a{mn, mx, alpha};
+  // other generators constructed in between (same skew, more and fewer bins; another skew): a twin constructed after
+  // them must still be the same function
+  const uint64_t n_more = std::min<uint64_t>(2 * n + 7, 60000), n_less = n / 2 + 1;
+  const I128 room = static_cast<I128>(Lim::max()) - mn128 + 1;
+  auto other = [&](uint64_t bins, double al) {
+    if (static_cast<I128>(bins) > room) bins = static_cast<uint64_t>(room);
+    return D<I>{mn, static_cast<I>(mn128 + static_cast<I128>(bins) - 1), al};
+  };
+  D<I> more = other(n_more, alpha);
+  D<I> less = other(n_less, alpha);
+  D<I> skewed = other(n, alpha + 0.37);
   D<I> b{mn, mx, alpha};
   std::vector<I> ref(len);
   {
@@ -534,6 +594,60 @@ C19One(Ctx &c, const char *cls, Rng &r)
   };
   same(b, "equal-parameters");
   same(a, "second-pass-of-same-generator");  // no hidden state after len draws
+  // equal parameters also means equal CDF values, bit for bit
+  for (uint64_t k = 0; k < n; k += (n > 4000 ? 37 : 1)) {
+    if (a.GetCDF(static_cast<I>(k)) != b.GetCDF(static_cast<I>(k))) {
+      Violate("C19", Fmt("%s:equal-parameters-cdf-differs", cls),
+              Fmt("%s: GetCDF(%" PRIu64 ") is %.17g for one generator and %.17g for a generator with equal parameters that was constructed after "
+                  "other generators (same skew with %" PRIu64 " and %" PRIu64 " bins)",
+                  ps.c_str(), k, a.GetCDF(static_cast<I>(k)), b.GetCDF(static_cast<I>(k)), n_more, n_less));
+      break;
+    }
+  }
+  // a twin constructed by a fresh thread, and twins constructed while other threads construct generators with other
+  // skews at the same time
+  {
+    std::unique_ptr<D<I>> fresh;
+    std::thread t{[&] { fresh.reset(new D<I>{mn, mx, alpha}); }};
+    t.join();
+    same(*fresh, "equal-parameters-constructed-by-a-fresh-thread");
+    const int TC = 2 + static_cast<int>(r.Below(3));
+    std::vector<std::unique_ptr<D<I>>> twins(TC);
+    std::atomic<int> go{0};
+    std::vector<std::thread> cth;
+    for (int t2 = 0; t2 < TC; ++t2) {
+      cth.emplace_back([&, t2] {
+        while (go.load(std::memory_order_acquire) == 0) {
+        }
+        for (int rep = 0; rep < 6; ++rep) {
+          D<I> noise = other(n_less + static_cast<uint64_t>(rep) * 3, alpha + 0.11 * (t2 + 1) + 0.01 * rep);
+          (void)noise;
+          twins[t2].reset(new D<I>{mn, mx, alpha});
+        }
+      });
+    }
+    go.store(1, std::memory_order_release);
+    for (auto &t3 : cth) t3.join();
+    for (int t2 = 0; t2 < TC; ++t2) same(*twins[t2], "equal-parameters-constructed-while-other-threads-construct-other-skews");
+  }
+  // assignment over generators that had other parameters before (more bins, fewer bins, default), and twice in a row
+  more = a;
+  same(more, "copy-assigned-over-a-generator-with-more-bins");
+  less = a;
+  same(less, "copy-assigned-over-a-generator-with-fewer-bins");
+  {
+    D<I> dflt;
+    dflt = skewed;
+    dflt = a;
+    same(dflt, "copy-assigned-twice-over-a-default-constructed-generator");
+    D<I> big2 = other(n_more, alpha);
+    skewed = big2;
+    skewed = a;
+    same(skewed, "copy-assigned-after-an-assignment-of-a-larger-generator");
+    D<I> src{a};
+    big2 = std::move(src);
+    same(big2, "move-assigned-over-a-generator-with-more-bins");
+  }
   D<I> copy{a};
   same(copy, "copy-constructed");
   D<I> assigned;
@@ -585,7 +699,7 @@ C19One(Ctx &c, const char *cls, Rng &r)
   }
   c.res.Add("draws", len * (8 + T));
   c.res.Add("parameter_sets", 1);
-  c.res.Add("sequences_compared", 8 + T);
+  c.res.Add("sequences_compared", 18 + T);
   c.sigs.insert(Fmt("c19:%s<%s>:%s:threads=%d", cls, TypeName<I>(), n <= 100 ? "n<=100" : "n>100", T));
   if (c.res.samples.size() < 4) c.res.samples.push_back("\"" + JEsc(ps) + Fmt(" engine seed %" PRIu64 " length %zu threads %d", seed, len, T) + "\"");
 }
